@@ -12,10 +12,10 @@ DEFAULT_TOP = "{5fbaabe3-6958-40ff-92a7-860e329aab41}"
 NULL_GUID = "{00000000-0000-0000-0000-000000000000}"
 
 
-def header(ver, spc, nbat, size_sectors, first_block, *, sig=None, in_use=0, heads=16, cyl=1024, flags=0, ext_off=0):
+def header(ver, spc, nbat, size_sectors, first_block, *, sig=None, in_use=0, heads=16, cyl=1024, flags=0, ext_off=0, v1_unused=0):
     sig = sig if sig is not None else (SIG_V1 if ver == 1 else SIG_V2)
     h = struct.pack("<16sIIIII", sig, 2, heads, cyl, spc, nbat)
-    h += struct.pack("<II", size_sectors & 0xFFFFFFFF, 0) if ver == 1 else struct.pack("<Q", size_sectors)
+    h += struct.pack("<II", size_sectors & 0xFFFFFFFF, v1_unused) if ver == 1 else struct.pack("<Q", size_sectors)
     h += struct.pack("<IIIQ", in_use, first_block, flags, ext_off)
     assert len(h) == 64
     return h
